@@ -48,6 +48,13 @@ func (c *Ctx) frameCases(needSum bool) []FrameCase {
 				out = append(out, FrameCase{MsgCase: mc, H: h, R: r})
 			}
 		}
+		if !needSum && mc.N <= 1 && c.bodyHasPtrParts(mc) {
+			// bodies whose nested pointer parts are absent: Encode fills them in - the length must count what is
+			// really written
+			nm := mc
+			nm.NilParts = true
+			out = append(out, FrameCase{MsgCase: nm, H: 0, R: 0})
+		}
 		if !needSum && fi.Alg != "" {
 			// the length must be right whether or not the frame's checksum service is registered
 			out = append(out, FrameCase{MsgCase: mc, H: 0, R: 0, NoReg: true})
@@ -261,4 +268,24 @@ func frameCheck(c *Ctx, fc FrameCase, wantLen, wantSum bool) {
 				Replay: &ReplayReq{Steps: steps(val), Judge: Judge{Kind: "prefix_ne", Step: 2 + so, ExpectHex: hexOf(evalTerms(h.prior, val))}}}
 		})
 	}
+}
+
+
+// bodyHasPtrParts: the body type selected by the case's key has nested pointer parts.
+func (c *Ctx) bodyHasPtrParts(mc MsgCase) bool {
+	ms := c.sc.Mods[mc.Mod]
+	bf := ms.Types[mc.Typ].BodyField()
+	if bf == nil || mc.Key < 0 {
+		return false
+	}
+	bt := ms.Types[ms.Tables[bf.Table].Entries[mc.Key][1].(string)]
+	if bt == nil {
+		return false
+	}
+	for _, f := range bt.Fields {
+		if f.Kind == "nested" && f.Ptr {
+			return true
+		}
+	}
+	return false
 }
